@@ -77,6 +77,8 @@ def main(run, tier):
     run.floor = 150
     from . import printobl
     printobl.print_obligations(run, g, ('pretty',))
+    from . import sepobl
+    sepobl.sep_obligations(run, g, ('pretty',))
     importlib.import_module('calmjs.parse.parsers.es5').Parser()
     progs = roundtrip.programs(g, tier)
     args = [(p, INDENTS if tier == 'thorough' else [INDENTS[k % 3], INDENTS[(k + 1) % 3]]) for k, p in enumerate(progs)]
